@@ -384,7 +384,12 @@ impl<CharIter: Iterator<Item = char>> Lexer<CharIter> {
                 self.advance(1);
             }
         }
-        self.digital10(number_literal)
+        self.digital10(number_literal)?;
+        // the exponent must be followed by a delimiter, like every other number form
+        match self.peekable_char_stream.peek() {
+            Some(nc) => Self::test_delimiter(Some(self.location), *nc),
+            None => Ok(()),
+        }
     }
 
     fn real(&mut self, number_literal: &mut String) -> Result<()> {
@@ -436,6 +441,9 @@ impl<CharIter: Iterator<Item = char>> Lexer<CharIter> {
                                 let mut denominator = String::new();
                                 self.advance(1);
                                 self.digital10(&mut denominator)?;
+                                if let Some(dc) = self.peekable_char_stream.peek() {
+                                    Self::test_delimiter(Some(self.location), *dc)?;
+                                }
                                 break Ok(Some(TokenData::Primitive(Primitive::Rational(
                                     number_literal.parse::<i32>().unwrap(),
                                     match denominator.parse::<u32>().unwrap() {
